@@ -29,8 +29,12 @@ func allKindsFields() defMap {
 		f["k"+n] = jDef{Kind: "attr", K: n}
 		f["p"+n] = jDef{Kind: "attr", K: n, Null: true}
 	}
+	// a field whose json tag carries an option: for this library the whole tag is the name
+	f[optName] = jDef{Kind: "attr", K: "string"}
 	return f
 }
+
+const optName = "j,omitempty"
 
 // akNarrowFields: another Go struct for the same type name "ak", with fewer fields (an older
 // version of the API in the same program): impl "wrapn"
@@ -83,6 +87,12 @@ func akSchema(impl string) *jsonapi.Schema {
 	}
 	s.RemoveAttr(spare, "zx")
 	s.RemoveType("aa0")
+	// ... and, after another look, a type leaves and comes back at the end: as many types as before,
+	// every one in another place
+	catch(func() { _, _ = s.HasType("ak"), s.GetType("ak3") })
+	first := s.GetType("AK")
+	s.RemoveType("AK")
+	must(s.AddType(first))
 	akSchemas[impl] = s
 	return s
 }
@@ -241,6 +251,7 @@ func runRoundTrip(c rtCase) rtEvent {
 		}
 		src.Set("o", o)
 		src.Set("m", append([]string{}, m...))
+		src.Set(optName, "opt")
 		src.Set("o2", "")
 		wantO2, wantM2 := "", []string{}
 		if len(m) > 0 {
@@ -373,6 +384,9 @@ func runRoundTrip(c rtCase) rtEvent {
 			if second.Get("t2") != "" || len(second.Attrs()) != 2 {
 				ev.R.AttrsSame = false
 			}
+		}
+		if got, _ := back.Get(optName).(string); got != "opt" {
+			ev.R.AttrsSame = false
 		}
 		bo, _ := back.Get("o").(string)
 		bo2, _ := back.Get("o2").(string)
